@@ -107,6 +107,11 @@ def str_method(E, m, args, kwargs):
         raise Unsupported('str.split()')
     if m == 'join':
         seq = rest[0]
+        if isinstance(seq, VRef) and isinstance(E.heap[seq.addr], HList) and E.heap[seq.addr].base is not None:
+            # joining an abstract list of pieces: some string (nothing is known about it)
+            ops.opaque_op_may_raise(E, 'join of unknown pieces')
+            E.lib_used.add('str.join over a list of unknown pieces: an arbitrary string')
+            return VS(z3.String(E.fresh('joined')))
         items = E.concrete_iter(seq)
         out = None
         for i, x in enumerate(items):
